@@ -498,4 +498,101 @@ Proof.
     split; [eexists; reflexivity|]. split; [|exact Hst]. destruct HP as [HP|HP]; [rewrite <- HP, Hpl; exact I | exact HP].
 Qed.
 
+
+(* the engine between the accepted request and the next step of the task *)
+Definition AB0 (s : st) : Prop :=
+  ((pc s = PcSleep0 /\ al s) \/ (exists k, pc s = PcCmd k /\ S (List.length (resps s)) = List.length (plans s))) /\
+  must_cancel s = true /\ pre_fall s.
+(* FailedPause went through the whole stack without meeting a running plan: the loop is left, nothing to close *)
+Definition endE (pl0 : list (frame P)) (s : st) : Prop :=
+  plans s = [] /\ ((exists r, pc s = PcFinalSleep r) \/ dead s) /\ nolive_top pl0.
+
+Lemma first_step pl0 (s : st) s' o :
+  AB0 s -> plans s = pl0 -> task_step presume plan_of dev s = (s', o) -> nb o ->
+  Forall np o /\ ZT s' /\ ((fin o = None /\ endE pl0 s') \/ thrownFP pl0 o).
+Proof.
+  intros (Hpc & Hmc & Hpre) Hpl H Hnb. rewrite RE_Inv.task_step_tentry in H.
+  assert (Ht : exists p, RE_Inv.tentry P presume D dev s = inl (set_must_cancel s false, CCancelled p, []) /\
+                         stk p (set_must_cancel s false)).
+  { unfold RE_Inv.tentry. cbv zeta. rewrite Hmc. destruct Hpc as [[-> Ha]|(k & -> & Ha)]; [exists false | exists true]; split; auto. }
+  destruct Ht as (p & Ht & Hstk). rewrite Ht in H. clear Ht.
+  revert Hnb.
+  refine (RE_Small.drive_inv P presume plan_of D dev
+            (fun s c os => nb os -> Forall np os /\ ((fin os = None /\ Fall pl0 s c) \/ (term_state (state s) = true /\ thrownFP pl0 os)))
+            (fun s' o => nb o -> Forall np o /\ ZT s' /\ ((fin o = None /\ endE pl0 s') \/ thrownFP pl0 o))
+            _ _ _ _ _ _ _ _ _ _ H).
+  - intros s0 c0 os0 s1 c1 o1 Q0 Hd Hb. apply nb_app in Hb. destruct Hb as [Hb0 Hb1]. destruct (Q0 Hb0) as (N0 & [[F0 HF]|[T0 TF]]).
+    + pose proof (fall_dstep pl0 s0 c0 _ HF Hd Hb1) as (N1 & K). split; [apply Forall_app; split; assumption|].
+      destruct K as [[K1 K2]|[K1 (pid & K2 & K3)]]; [left; rewrite fin_app, F0; auto | right; split; [exact K1 | exists pid; rewrite fin_app, F0; auto]].
+    + pose proof (term_dstep s0 c0 _ T0 Hd) as [K1 K2]. split; [apply Forall_app; split; assumption|]. right. split; [exact K1|].
+      destruct TF as (pid & TF1 & TF2). exists pid. rewrite fin_app, TF1. auto.
+  - intros s0 c0 os0 s1 o1 Q0 Hd Hb. apply nb_app in Hb. destruct Hb as [Hb0 Hb1]. destruct (Q0 Hb0) as (N0 & [[F0 HF]|[T0 TF]]).
+    + pose proof (fall_dstep pl0 s0 c0 _ HF Hd) as (N1 & K1 & K2 & K3 & K4 & K5).
+      split; [apply Forall_app; split; assumption|]. split; [left; rewrite K5; reflexivity|]. left. rewrite fin_app, F0.
+      split; [exact K1|]. split; [exact K2|]. split; [left; exact K3 | exact K4].
+    + pose proof (term_dstep s0 c0 _ T0 Hd) as [K1 K2]. split; [apply Forall_app; split; assumption|].
+      split; [destruct K1 as [K1|K1]; [left; exact K1 | right; right; exact K1]|]. right.
+      destruct TF as (pid & TF1 & TF2). exists pid. rewrite fin_app, TF1. auto.
+  - intros s0 c0 os0 _ Hb. exfalso. apply nb_app in Hb. destruct Hb as [_ Hb]. inv Hb. contradiction.
+  - intros _. split; [constructor|]. left. split; [reflexivity|]. split; [left; simp_st; exact Hpl|].
+    cbn. split; [|exact Hstk]. destruct Hpre as (C1 & C2 & C3). repeat split; auto.
+Qed.
+
+Lemma finalize_noplans (s : st) r pend s' o :
+  plans s = [] -> finalize presume dev s r pend = (s', o) -> fin o = None /\ plans s' = [].
+Proof.
+  intros Hpl. unfold finalize.
+  destruct (stop_movables dev (set_pardon s true)) as [s2 o2] eqn:E2.
+  match goal with |- context [fold_left ?f ?l ?a] => destruct (fold_left f l a) as [s3 o3] eqn:E3 end.
+  pose proof (stop_movables_dq _ _ _ _ _ _ E2) as Q2. pose proof (dloop_dq _ _ _ _ _ _ _ _ _ (Forall_nil _) E3) as Q3.
+  apply RE_Inv.stop_movables_same in E2. apply RE_Inv.unstage_fold_same in E3.
+  assert (Hp3 : plans s3 = []).
+  { destruct E2 as [[E2 _] _]. destruct E3 as [[E3 _] _]. unfold RE_Inv.same in *. simp_st.
+    destruct E2 as (_ & _ & _ & _ & _ & X & _). destruct E3 as (_ & _ & _ & _ & _ & Y & _). congruence. }
+  assert (Hcf : close_frames presume (set_bundlers (set_staged s3 []) []) = []).
+  { unfold close_frames. simp_st. rewrite Hp3. reflexivity. }
+  unfold set_state. cbv zeta. rewrite Hcf.
+  match goal with |- context [allowed ?a Idle] => destruct (allowed a Idle) end; intros H; inv H; simp_st; (split; [|exact Hp3]).
+  all: apply fin_quiet; fa; try exact I; try (eapply Forall_imp'; [exact dq_quietq | first [eassumption | apply close_runs_dq]]).
+  all: match goal with |- quietq (OTask _) => exact I | _ => idtac end.
+Qed.
+
+(* ------------------------------------------------------------------ the continuation, event by event *)
+Definition Phase (pl0 : list (frame P)) (w : bool) (s : st) (oacc : list obs) : Prop :=
+  Forall np oacc /\
+  ((w = true /\ AB0 s /\ plans s = pl0 /\ fin oacc = None)
+   \/ (ZT s /\ endE pl0 s /\ fin oacc = None)
+   \/ (ZT s /\ thrownFP pl0 oacc)).
+
+Lemma phase_step pl0 w (s : st) oacc e s' o :
+  Phase pl0 w s oacc -> cont_ev e = true -> step presume plan_of dev s e = (s', o) -> nb o ->
+  Phase pl0 (w && inert e) s' (oacc ++ o).
+Proof.
+  intros [N0 Ph] Hc H Hb. destruct e as [a|a| | |defer|rs| | |sid pre post|sid|sid ok| |]; try discriminate Hc.
+  2:{ (* the task *)
+      cbn [step] in H. rewrite andb_false_r.
+      destruct Ph as [(_ & HA & Hpl & F0)|[(HZ & HE & F0)|(HZ & pid & F0 & T0)]].
+      - destruct (first_step pl0 s s' o HA Hpl H Hb) as (N1 & Z1 & K). split; [apply Forall_app; split; assumption|].
+        right. destruct K as [[K1 K2]|(pid & K1 & K2)]; [left; rewrite fin_app, F0; auto | right; split; [exact Z1 | exists pid; rewrite fin_app, F0; auto]].
+      - destruct (ZT_task s s' o HZ H) as [Z1 N1]. split; [apply Forall_app; split; assumption|]. right; left.
+        split; [exact Z1|]. destruct HE as (E1 & E2 & E3).
+        unfold task_step in H. destruct E2 as [[r Epc]|[Epc|[r Epc]]]; rewrite Epc in H.
+        + destruct (must_cancel s);
+            (destruct (finalize_noplans (set_must_cancel s false) _ _ _ _ E1 H) as [K1 K2]; rewrite fin_app, F0; split; [|exact K1]; split; [exact K2|]; split; [|exact E3];
+             right; right; eapply finalize_pc; exact H).
+        + inv H. rewrite fin_app, F0. split; [|reflexivity]. split; [exact E1|]. split; [right; left; exact Epc | exact E3].
+        + inv H. rewrite fin_app, F0. split; [|reflexivity]. split; [exact E1|]. split; [right; right; eexists; exact Epc | exact E3].
+      - destruct (ZT_task s s' o HZ H) as [Z1 N1]. split; [apply Forall_app; split; assumption|]. right; right.
+        split; [exact Z1|]. exists pid. rewrite fin_app, F0. auto. }
+  all: assert (Hi : inert _ = true) by exact Hc; rewrite Hi, andb_true_r;
+       destruct (step_inert _ _ _ _ Hi H) as (-> & A1 & A2 & A3 & A4 & A5 & A6 & A7 & A8 & A9 & _); rewrite app_nil_r; split; [exact N0|].
+  all: assert (HZ' : ZT s -> ZT s') by (unfold ZT, dead; rewrite A1, A2; auto).
+  all: destruct Ph as [(Hw & HA & Hpl & F0)|[(HZ & (E1 & E2 & E3) & F0)|(HZ & T0)]];
+       [ left; split; [exact Hw|]; split; [|split; [congruence | exact F0]];
+         destruct HA as (B1 & B2 & C1 & C2 & C3); unfold AB0, pre_fall, al; rewrite A1, A2, A3, A4, A5, A7, A8;
+         repeat split; auto
+       | right; left; split; [apply HZ'; exact HZ|]; split; [|exact F0]; unfold endE, dead; rewrite A4, A2; repeat split; assumption
+       | right; right; split; [apply HZ'; exact HZ | exact T0] ].
+Qed.
+
 End C10.
